@@ -144,6 +144,8 @@ def gen_abs(rnd):
             st['timestamp_end'] = gen_uint(rnd, 8, clk)
         if rnd.random() < 0.6:
             st['events_discarded'] = gen_uint(rnd, 8)
+        if rnd.random() < 0.3:
+            st['packet_seq_num'] = gen_uint(rnd, 8)
         st['extra'] = [(f'x{i}', gen_field(rnd)) for i in range(rnd.choice([0, 0, 1, 2]))]
         nev = rnd.choice([1, 1, 2, 3])
         eh = {}
@@ -257,7 +259,7 @@ def render2(a):
             o['$default'] = True
         pc = {}
         # reserved members may appear in any order among the user's members
-        for key in ('timestamp_begin', 'timestamp_end', 'packet_size', 'content_size', 'events_discarded'):
+        for key in ('timestamp_begin', 'timestamp_end', 'packet_size', 'content_size', 'events_discarded', 'packet_seq_num'):
             if key in st:
                 pc[key] = ft2(st[key])
         for xn, xf in st['extra']:
@@ -387,7 +389,8 @@ def render3(a):
             d['$default-clock-type-name'] = st['clock']
         pkt = {'total-size-field-type': ft3(st['packet_size']), 'content-size-field-type': ft3(st['content_size'])}
         for key, fk in (('timestamp_begin', 'beginning-timestamp-field-type'), ('timestamp_end', 'end-timestamp-field-type'),
-                        ('events_discarded', 'discarded-event-records-counter-snapshot-field-type')):
+                        ('events_discarded', 'discarded-event-records-counter-snapshot-field-type'),
+                        ('packet_seq_num', 'sequence-number-field-type')):
             pkt[fk] = ft3(st[key]) if key in st else False
         eh = st['eh'] or {}
         er = {'type-id-field-type': ft3(eh['id']) if 'id' in eh else False,
@@ -487,21 +490,35 @@ class Decorate2:
         return name
 
     def split(self, node):
+        """(base, overlay) whose patch is `node` again, key order included: a prefix of the keys goes to the
+        base file (some restated or split further in the overlay), the rest to the overlay; sequences and
+        alias tables go to one side whole (sequences would append)"""
         rnd = self.rnd
         base, ov = {}, {}
-        for k, v in node.items():
+        keys = list(node)
+        cut = rnd.randint(0, len(keys))
+        for i, k in enumerate(keys):
+            v = node[k]
+            if i >= cut or k == '$include':
+                ov[k] = v
+                continue
             r = rnd.random()
-            if k == '$include':
-                ov[k] = v
-            elif r < 0.35:
+            if isinstance(v, list) or k == 'type-aliases' or r < 0.5:
                 base[k] = v
-            elif r < 0.7:
-                ov[k] = v
-            elif isinstance(v, dict) and v and k != 'type-aliases':
+            elif isinstance(v, dict) and v:
                 base[k], ov[k] = self.split(v)
+            elif isinstance(v, dict):
+                base[k] = v
             else:
-                base[k], ov[k] = v, v
+                base[k], ov[k] = self.other_scalar(v), v
         return base, ov
+
+    def other_scalar(self, v):
+        if isinstance(v, bool) or v is None:
+            return v
+        if isinstance(v, int):
+            return v + self.rnd.choice([0, 1])
+        return v
 
     def includable(self, node, children, p=0.4):
         node = dict(node)
